@@ -1,4 +1,5 @@
 """C12 - HTML, JSON, Markdown and text outputs all render and carry the same data."""
+import os
 from engine.ob import REPO_SRC  # noqa: E402
 from engine.ob import pick as _pick, flag as _flag  # noqa: F401
 from engine.ob import Obligation, post, reset_tally_caches
@@ -40,6 +41,9 @@ def _txns(layout, amounts, descs=None):
         out.append({'merchant': m, 'category': c, 'subcategory': s, 'date': datetime(2024, mo, 7 + i), 'amount': amounts[i], 'tags': list(tags),
                     'description': m, 'raw_description': (descs[i] if descs else f'RAW {m} {i}'), 'source': f'S{i % 2}', 'location': None,
                     'match_info': {'pattern': 'contains("X")', 'source': 'user', 'tags': list(tags)}})
+        if i != 1:
+            # values a `field:` directive can produce, falsy ones included (a flag that is False, a difference that is 0, an empty memo)
+            out[-1]['extra_fields'] = {'over': amounts[i] > 20, 'delta': amounts[i] - amounts[0], 'note': f'n{i}', 'zero': 0, 'empty': '', 'items': []}
     return out
 
 
@@ -158,6 +162,7 @@ def renders(layout, with_views, what):
                         ok = ok and len(m['transactions']) == len(src)
                         for tj, ts in zip(m['transactions'], src):
                             ok = ok and tj['description'] == ts['description'] and tj['amount'] == ts['amount'] and tj['tags'] == ts['tags'] and tj['month'] == ts['month'] and tj['source'] == ts['source']
+                            ok = ok and (tj.get('extra_fields') or {}) == (ts.get('extra_fields') or {})
                 tt = cat['typeTotals']
                 inc, inv, trf, spend = inc + tt['income'], inv + tt['investment'], trf + tt['transfer'], spend + tt['spending']
             ok = ok and sorted(seen) == sorted(stats['by_merchant'])
@@ -270,6 +275,31 @@ HOSTILE = ['</script>', '</SCRIPT >', '</Script>x', 'a</sCrIpT\n>', '<!-- <SCRIP
            'back\\slash', "it's", 'café €', ' line', '<script>alert(1)</script>']
 
 
+def _template_tokens():
+    """Every placeholder-looking token in the CURRENT report writer and its templates (comment markers, {{...}}, __NAME__, %NAME%):
+    data that contains one of them must still come back unchanged.  Derived from the source on every run."""
+    import re
+    found = []
+    d = REPO_SRC + '/tally'
+    for fn in sorted(os.listdir(d)):
+        if fn.startswith('spending_report') or fn == 'report.py':
+            try:
+                with open(os.path.join(d, fn), encoding='utf-8', errors='replace') as f:
+                    txt = f.read()
+            except OSError:
+                continue
+            pats = [r'/\*\s*[A-Z][A-Z0-9_]{3,}\s*\*/', r'<!--\s*[A-Z][A-Z0-9_]{3,}\s*-->', r'__[A-Z][A-Z0-9_]{3,}__', r'%%?[A-Z][A-Z0-9_]{3,}%%?', r'\{\{\s*[A-Z][A-Z0-9_]{3,}\s*\}\}', r'\$\{[A-Z][A-Z0-9_]{3,}\}']
+            for pat in pats:
+                for m in re.findall(pat, txt):
+                    if m not in found:
+                        found.append(m)
+    return found
+
+
+def hostile_strings():
+    return HOSTILE + [t for t in _template_tokens() if t not in HOSTILE]
+
+
 def text_figures(k):
     """The figures PRINTED by the text summary and written to Markdown carry the sign of the analysed figure (direct runs: the
     formatted text of a symbolic number is opaque to the solver).  k picks the signs of net cash flow and net transfers."""
@@ -319,7 +349,7 @@ def text_figures(k):
 
 def parse_back(i):
     """The written HTML, read back by html.parser and json, holds exactly the analysed descriptions (direct run per hostile string)."""
-    text = HOSTILE[i]
+    text = hostile_strings()[i]
 
     class Q:
         def query(self):
@@ -401,7 +431,7 @@ def obligations(tier, seed):
     for k in range(4):
         obs.append(Obligation(id=f'text-figures-{k}', factory='text_figures', params={'k': k}, engine='smt', twin=False, timeout=60,
                               group='same figures in every format (direct runs)', bounds=f'net cash flow {"positive" if k & 1 else "negative"}, net transfers {"positive" if k & 2 else "negative"}: text summary and Markdown'))
-    for i, t in enumerate(HOSTILE):
+    for i, t in enumerate(hostile_strings()):
         obs.append(Obligation(id=f'parse-back-{i:02d}', factory='parse_back', params={'i': i}, engine='smt', twin=False, timeout=60,
                               group='HTML parse-back on hostile strings (direct runs)', bounds=f'description / source name {t!r}'))
     return obs
